@@ -67,7 +67,13 @@ def export_universe(ctx: Ctx, *, minsize: int, maxsize: int, rich: bool, nshards
             cases += [p for t, p in parse_prints(r.prints) if t == "CASE"]
     if not cases:
         raise MachineryError("MC_XarrayLabels exported no cases")
-    return cases
+    seen, uniq = set(), []
+    for c in cases:                      # the generator cases are members of every shard
+        key = json.dumps([c["desc"], c["inputs"]], sort_keys=True)
+        if key not in seen:
+            seen.add(key)
+            uniq.append(c)
+    return uniq
 
 
 def export_file_cases(ctx: Ctx, items: list[dict], name: str, *, chunk: int = 250, par: int = 4, count: bool = True) -> dict[int, dict]:
@@ -203,9 +209,10 @@ def observe(job: dict) -> dict:
                         else:
                             ds = load_xarray_dataset(*v["sel"], run_folder=tmp, load_intermediate=v["li"])
                         built[api] = ds
-                        o["ds"][api] = project(ds)
                     except Exception as ex:  # noqa: BLE001
                         o["exc"][api] = _exc(ex)
+                for api, ds in built.items():
+                    o["ds"][api] = project(ds)         # a failure here is a harness failure, not a verdict
                 if len(built) == 2:
                     try:
                         o["identical"] = bool(built["from_results"].identical(built["load"]))
@@ -219,9 +226,10 @@ def observe(job: dict) -> dict:
                             continue
                         try:
                             sub, how = _select(ds, p)
-                            o["picks"].append({"coord": p["coord"], "how": how, "ds": project(sub)})
                         except Exception as ex:  # noqa: BLE001
                             o["picks"].append({"coord": p["coord"], "exc": _exc(ex)})
+                            continue
+                        o["picks"].append({"coord": p["coord"], "how": how, "ds": project(sub)})
                 obs["views"].append(o)
         return obs
     finally:
@@ -476,19 +484,24 @@ def run(ctx: Ctx) -> None:
         cases = export_universe(ctx, minsize=2, maxsize=2, rich=False, nshards=2, par=1, only=ctx.seed % 2)
         jobs = jobs_for(cases, lambda k: [("dict", "file_array")[k % 2]], lambda k: [("ndarray", "list")[(k // 2) % 2]], keep=40,
                         every_single=False)
+        ctx.extra["universe"] = f"MC_XarrayLabels: Rich=FALSE sizes 2..2, shard {ctx.seed % 2} of 2"
     else:
-        # thorough: A. the rich universe, every axis of size 2, every view; B. the basic universe with all sizes 1..2 and
-        # C. with size 3 (views as in quick); each with one storage / container kind per case, alternating
+        # thorough: A. the rich universe, every axis of size 2; B. one eighth (selected by the seed) of the basic universe
+        # with all mixes of sizes 1..2 and C. the basic universe with size 3; views as in quick (full dataset on/off + one
+        # rotating one-output selection), one storage / container kind per case, alternating.  Random cases: every view.
         check_same_universe(ctx)
         cases = export_universe(ctx, minsize=2, maxsize=2, rich=True, nshards=8, par=4)
-        jobs = jobs_for(cases, lambda k: [("dict", "file_array")[k % 2]], lambda k: [("ndarray", "list")[(k // 2) % 2]], keep=40)
-        more = export_universe(ctx, minsize=1, maxsize=2, rich=False, nshards=8, par=4)
+        jobs = jobs_for(cases, lambda k: [("dict", "file_array")[k % 2]], lambda k: [("ndarray", "list")[(k // 2) % 2]], keep=40,
+                        every_single=False)
+        more = export_universe(ctx, minsize=1, maxsize=2, rich=False, nshards=8, par=1, only=ctx.seed % 8)
         more += export_universe(ctx, minsize=3, maxsize=3, rich=False, nshards=2, par=2)
         jobs += jobs_for(more, lambda k: [("file_array", "dict")[k % 2]], lambda k: [("list", "ndarray")[(k // 2) % 2]],
                          every_single=False)
         for n, j in enumerate(jobs):
             j["k"] = n
         cases += more
+        ctx.extra["universe"] = (f"MC_XarrayLabels: Rich=TRUE sizes 2..2 (all shards) + Rich=FALSE sizes 1..2 shard {ctx.seed % 8} of 8 "
+                                 "+ Rich=FALSE sizes 3..3 (all shards); SameUniverse checked for Rich=FALSE sizes 1..2")
     for c in cases:
         if c["order"] != sorted(c["order"]):
             raise MachineryError("universe name order is not alphabetical")
@@ -509,7 +522,7 @@ def run(ctx: Ctx) -> None:
     selftest(ctx, jobs, results)
 
     # seeded random pipelines through the same model (Mode = "file")
-    items = random_items(rng, 60 if quick else 1500)
+    items = random_items(rng, 60 if quick else 800)
     exported = export_file_cases(ctx, [{k: v for k, v in it.items() if not k.startswith("_")} for it in items], "random",
                                  chunk=60 if quick else 250, par=2 if quick else 4)
     rjobs = []
